@@ -232,6 +232,29 @@ theorem goaway_not_selected (c : CC) (h : c.goAway = true) (hr : c.reserve.1 = t
     exact ⟨hc.2.1.1.1, hc.2.1.2⟩
   · cases hr
 
+/-! T-tie: the conditions of `setGoAway` / `canRetryError` regenerated from the Go source -/
+
+theorem gen_classify_eq (last code id : Nat) :
+    classify last code id =
+      if NetVerif.Gen.C17.goAwayKeeps id last then .keep
+      else if NetVerif.Gen.C17.goAwayFailsFirst id code then .failFirst else .retryable := by
+  unfold classify NetVerif.Gen.C17.goAwayKeeps NetVerif.Gen.C17.goAwayFailsFirst
+  by_cases h1 : id ≤ last
+  · simp [h1]
+  · by_cases h2 : id = 1 ∧ code ≠ 0
+    · simp [h2]
+    · simp [h1]
+      all_goals (intro hid; exact Decidable.byContradiction (fun hc => h2 ⟨hid, hc⟩))
+
+/-- exactly the two sentinel errors the model's `canRetryError` accepts (besides REFUSED_STREAM) -/
+theorem gen_retrySentinels_eq :
+    NetVerif.Gen.C17.retrySentinels = ["errClientConnUnusable", "errClientConnGotGoAway"] ∧
+    canRetryError .unusable = true ∧ canRetryError .gotGoAway = true ∧ canRetryError .other = false := by
+  exact ⟨rfl, rfl, rfl, rfl⟩
+
+theorem gen_retryStreamCode_eq : NetVerif.Gen.C17.retryStreamCode = 7 ∧ canRetryError .refusedStream = true :=
+  ⟨rfl, rfl⟩
+
 /-! Non-vacuity -/
 example : classify 3 0 5 = .retryable := by decide
 example : classify 3 0 3 = .keep := by decide
